@@ -723,6 +723,10 @@ func (t *trzszTransfer) pipelineRecvAck(ctx *pipelineContext, size int64, ackCha
 				ctx.cancel(simpleTrzszError("SendData length check [%d] <> [%d]", length, ack.length))
 				return
 			}
+			if step < 0 || step > size {
+				ctx.cancel(simpleTrzszError("SendData step check [%d] not in [0, %d]", step, size))
+				return
+			}
 
 			if showProgress {
 				select {
